@@ -254,6 +254,68 @@ theorem C07_key_iff_topsafe (x y : Val) (hx : Comparable x) (hy : Comparable y) 
     key x = key y ↔ veq x y = true :=
   C07_key_iff x y hx hy ts (TypeKeysAgree_of_comparable hx hy)
 
+/-! ## the kinds of the extension round: URI, SemVer, SemVerRange
+
+A URI, a SemVer as `semver.NewVersion3` makes it (`verOk`: Go ints, parts matching the two part patterns, a part that
+`strconv.ParseInt` accepts held as an int) and a SemVerRange WITHOUT an original string (`arOk`) are `Comparable`, so every
+theorem above and below speaks about them at any nesting depth.  What that rests on: the printed form of a version and the
+normalized form of a range are injective (`%d` is read back by `ParseInt`; the separators `.` `-` `+` blank `||` cannot occur
+inside a part). -/
+
+/-- `version.ToString` determines the version: distinct versions never print alike -/
+theorem C07_verStr_injective (a b : Ver) (ha : verOk a = true) (hb : verOk b = true) (h : verStr a = verStr b) : a = b :=
+  verStr_inj ha hb h
+
+/-- `ToNormalizedString` determines the list of ranges -/
+theorem C07_normStr_injective (rs qs : List ARange) (hr : ∀ r ∈ rs, arOk r = true) (hq : ∀ q ∈ qs, arOk q = true)
+    (h : normStr rs = normStr qs) : rs = qs := normStr_inj hr hq h
+
+/-- `strconv.ParseInt` reads back what `%d` wrote: a pre-release part is an int exactly when its text is an int's -/
+theorem C07_parseInt_intStr (i : Int) (h1 : -9223372036854775808 ≤ i) (h2 : i ≤ 9223372036854775807) :
+    parseInt64 (intStr i) = some i := parseInt64_intStr i h1 h2
+
+/-- every version `semver.NewVersion3` returns (Go ints in, any two strings) is well-formed: the `(ver …)` operands of the
+    correspondence run are `Comparable` -/
+theorem C07_newVersion3_ok (ma mi pa : Int) (p q : Bytes) (v : Ver) (h : newVersion3 ma mi pa p q = some v)
+    (h1 : ma ≤ 9223372036854775807) (h2 : mi ≤ 9223372036854775807) (h3 : pa ≤ 9223372036854775807) : verOk v = true :=
+  newVersion3_ok h h1 h2 h3
+example : (newVersion3 1 0 0 [0x72, 0x63, 0x2e, 0x2d, 0x30, 0x35] [0x30, 0x30, 0x37]).isSome = true ∧
+    newVersion3 1 0 0 [0x30, 0x30, 0x37] [] = none := by decide
+
+theorem C07_semver_key_iff (a b : Ver) (ha : verOk a = true) (hb : verOk b = true) :
+    key (.semver a) = key (.semver b) ↔ veq (.semver a) (.semver b) = true :=
+  C07_key_iff_topsafe _ _ (by simpa [Comparable, cmp] using ha) (by simpa [Comparable, cmp] using hb) (TopSafe_of_not_str rfl rfl)
+
+/-- full statement for SemVerRanges: whatever string they were parsed from -/
+def C07_range_key_iff_full : Prop := ∀ (o o' : Bytes) (rs qs : List ARange), (∀ r ∈ rs, arOk r = true) → (∀ q ∈ qs, arOk q = true) →
+  (key (.vrange o rs) = key (.vrange o' qs) ↔ veq (.vrange o rs) (.vrange o' qs) = true)
+
+/-- proved part: ranges without an original string (built through the API, or after the repair proposed for the finding) -/
+theorem C07_range_key_iff_partial (rs qs : List ARange) (hr : ∀ r ∈ rs, arOk r = true) (hq : ∀ q ∈ qs, arOk q = true) :
+    key (.vrange [] rs) = key (.vrange [] qs) ↔ veq (.vrange [] rs) (.vrange [] qs) = true :=
+  C07_key_iff_topsafe _ _ (by simpa [Comparable, cmp] using hr) (by simpa [Comparable, cmp] using hq) (TopSafe_of_not_str rfl rfl)
+
+/-- the full statement is false of the code as it is: known finding C07-semver-range-original-key -/
+theorem C07_not_range_key_iff_full : ¬ C07_range_key_iff_full := by
+  intro h
+  have := (h [0x31, 0x2e, 0x78] [] [.se ⟨.ge, ⟨1, 0, 0, none, none⟩⟩ ⟨.lt, ⟨2, 0, 0, none, none⟩⟩]
+    [.se ⟨.ge, ⟨1, 0, 0, none, none⟩⟩ ⟨.lt, ⟨2, 0, 0, none, none⟩⟩] (by decide) (by decide)).mpr (by decide)
+  exact absurd this (by decide)
+
+/-- non-vacuity: `1.0.0-rc.-5+b1` in an array beside a URI, as a hash key; two different builds; a two-range SemVerRange -/
+def sampleV : Ver := ⟨1, 0, 0, some [.txt [0x72, 0x63], .num (-5)], some [[0x62, 0x31]]⟩
+example : verOk sampleV = true ∧ verOk verMin = true ∧ verOk ⟨1, 0, 0, some [.txt [0x35]], none⟩ = false := by decide
+example : Comparable (.hash [(.array [.semver sampleV, .uri [0x61]], .int 1)]) := by decide
+example : key (.array [.semver sampleV, .uri [0x61]]) = key (.entry (.semver sampleV) (.uri [0x61])) :=
+  (C07_key_iff_topsafe _ _ (by decide) (by decide) (TopSafe_of_not_str rfl rfl)).mpr (by decide)
+example : key (.semver ⟨1, 0, 0, none, some [[0x62, 0x31]]⟩) ≠ key (.semver ⟨1, 0, 0, none, some [[0x62, 0x32]]⟩) := fun h =>
+  absurd (C07_key_inj _ _ (by decide) (by decide) (TopSafe_of_not_str rfl rfl) h) (by decide)
+example : (hashGet [(.semver verMin, .int 1)] (.semver ⟨0, 0, 0, none, none⟩)).isSome = false := by decide
+def sampleR : List ARange := [.se ⟨.ge, ⟨1, 0, 0, none, none⟩⟩ ⟨.lt, ⟨2, 0, 0, none, none⟩⟩, .simple ⟨.eq, ⟨3, 0, 0, none, none⟩⟩]
+example : Comparable (.vrange [] sampleR) ∧ ¬ Comparable (.vrange [0x31] sampleR) := by decide
+example : key (.array [.vrange [] sampleR]) = key (.array [.vrange [] sampleR]) ∧
+    key (.vrange [] sampleR) ≠ key (.vrange [] [.simple ⟨.eq, ⟨3, 0, 0, none, none⟩⟩]) := by decide
+
 /-! ## Hash.Get -/
 
 /-- found ⇒ some key of the hash is equal to the argument, and the answer is that entry's value -/
